@@ -49,7 +49,9 @@ for f in "$REPO"/lib/*.c; do
   fl="$CFLAGS"
   if [ "$EXTRA" = norand ] && [ "$b" = util-get-random-bytes ]; then
     fl="$CFLAGS -include $OUT/inc/norand.h"
-    printf '#include "config.h"\n#undef HAVE_ARC4RANDOM_BUF\n' > "$OUT/inc/norand.h"
+    # the OS primitives of the fallback chain are bound to the harness (harness/xcv.c, xcv_*): a compile-time seam on
+    # the unmodified source, so that no process-wide read/open/close/syscall is interposed
+    printf '#include "config.h"\n#undef HAVE_ARC4RANDOM_BUF\n#define getentropy xcv_getentropy\n#define getrandom xcv_getrandom\n#define syscall xcv_syscall\n#define open xcv_open\n#define read xcv_read\n#define close xcv_close\n' > "$OUT/inc/norand.h"
   fi
   ( $CC $fl -c "$f" -o "$OUT/obj/$b.o" ) &
   pids+=($!)
